@@ -202,7 +202,7 @@ theorem stepEffect_pinv (p : Params) (s s' : Sys) (e : Effect) (rest : List Effe
     simp only [stepEffect] at h
     split at h
     · cases h; exact ⟨hch, hrest⟩
-    · split at h <;> cases h
+    · split at h <;> first | (cases h; exact ⟨hch, hrest⟩) | cases h
 
 theorem pinv_next (p : Params) (o : Opts) (st st' : St) (l : VaxisModel.Model.Startup.Label) (hI : PInv st)
     (hl : ∀ s, l = .input s → SafeSeq p.b64 s) (h : VaxisModel.Model.Startup.next p o st l = some (.ok st')) : PInv st' := by
